@@ -144,7 +144,7 @@ func lineSearch(f objective,
 
   for i := 0 ; i < maxEval; i++ {
     verifhook.Tick("lineSearch.bracket")
-    if alpha_j == 0.0 {
+    if alpha_j == 0.0 || math.IsNaN(alpha_j) || math.IsInf(alpha_j, 0) {
       return 0.0, fmt.Errorf("line search failed")
     }
     // decrease alpha_j until constraints are satisfied
